@@ -1494,6 +1494,8 @@ class Stage:
         # Custom amendments
         cp._var_original = self
         self._var_augmented = cp
+        # Placeholders may still be created on the original after transcription (issue #91)
+        cp._placeholders = self._placeholders
 
         cp._method = self._method
 
